@@ -157,7 +157,7 @@ func (rr *SIG) Verify(k *KEY, buf []byte) error {
 	h.Write(buf[sigstart:sigend])
 	h.Write(buf[:10])
 	h.Write([]byte{
-		byte((adc - 1) << 8),
+		byte((adc - 1) >> 8),
 		byte(adc - 1),
 	})
 	h.Write(buf[12:bodyend])
